@@ -32,7 +32,7 @@ def build(name, sources, extra=(), exe_name=None, stub_undefined=False):
 
 
 def _build(name, sources, extra=(), exe_name=None, stub_undefined=False):
-    out = os.path.join(core.BUILD, 'native')
+    out = os.path.join(core.RUNDIR, 'native')
     os.makedirs(out, exist_ok=True)
     exe = os.path.join(out, exe_name or name)
     srcs = [os.path.join(VERIF, 'replay', name + '.cpp')] + [os.path.join(LIB, s) for s in sources]
@@ -175,7 +175,7 @@ def full_library_sources():
 
 def gates_r(group, inputs, gate=None):
     """the whole real library (portable FFT) with a real key: every gate / aliasing pattern / truth-table row, both parameter sets in one process"""
-    out = os.path.join(core.BUILD, 'native')
+    out = os.path.join(core.RUNDIR, 'native')
     os.makedirs(out, exist_ok=True)
     cpp, cfiles = full_library_sources()
     objs = []
@@ -197,7 +197,7 @@ def gates_r(group, inputs, gate=None):
 
 def params_r(group, inputs):
     cpp, cfiles = full_library_sources()
-    out = os.path.join(core.BUILD, 'native')
+    out = os.path.join(core.RUNDIR, 'native')
     os.makedirs(out, exist_ok=True)
     objs = []
     for cf in cfiles:
@@ -211,7 +211,7 @@ def params_r(group, inputs):
 def io_r(group, inputs, mode=None):
     """C17: whole real library, real keys for small parameter sets, byte-level oracle on the exports (ASan on: an over-read in a writer is a finding)"""
     cpp, cfiles = full_library_sources()
-    out = os.path.join(core.BUILD, 'native')
+    out = os.path.join(core.RUNDIR, 'native')
     os.makedirs(out, exist_ok=True)
     objs = []
     for cf in cfiles:
